@@ -14,14 +14,14 @@ CLAIMED = {
     "C16": dict(
         engine="srvsim",
         technique="deterministic simulation of the real service in one process: seeded schedules over client requests, gated database calls, parked blocking tasks and a paused clock, with database faults and deadline jumps; answers/graphs judged against truth-table semantics, running-flag and bounded-liveness oracles over the recorded history",
-        text="The real handlers, middleware and solver run in-process against a gated in-memory MongoDB stub; the simulator decides which request is issued next, which parked database call completes next (Ok / fails before / executes but ack lost), when each parse/solve closure finishes and when the clock jumps past the 120 s deadline. Oracles on every GET: models per strategy equal the definitional answers for the shown code (set-equal, duplicate-free), every graph is a faithful picture (node set = reachable set, one lo/hi edge per inner node, evaluation equals the acceptance condition under every assignment extending the shown model), unparseable code shows an error, an ended task is not listed as running; at quiescence every acknowledged solve has its result. Exploration-level evidence.",
+        text="The real handlers, middleware and solver run in-process against a gated in-memory MongoDB stub; the simulator decides which request is issued next, which parked database call completes next (Ok / fails before / executes but ack lost), when each parse/solve closure finishes, when the clock jumps past the 120 s deadline and when the server process crashes and restarts with only the store surviving. Oracles on every GET: models per strategy equal the definitional answers for the shown code (set-equal, duplicate-free), every graph is a faithful picture (node set = reachable set, one lo/hi edge per inner node, evaluation equals the acceptance condition under every assignment extending the shown model), unparseable code shows an error, an ended task is not listed as running; at quiescence every acknowledged solve has its result. Exploration-level evidence.",
         design_ref="DESIGN.md 5.7",
         note="Trusted: MongoDB stub, refsem, the graph checker, the seam hook (two added lines per closure). Real: everything under /repo/server/src except main()'s socket binding, the whole library.",
     ),
     "C17": dict(
         engine="srvsim",
         technique="deterministic simulation of the real service with 2-3 simulated clients: seeded interleavings at every database await point (handlers parked between any two of their calls), database faults, clock jumps, tiny temporary-name space; provenance-based foreign-write oracle inside the store, marker-based foreign-data oracle on responses, credential and own-view oracles",
-        text="2-3 clients with cookie jars run generated scripts over all ten endpoints; every submitted code carries its client's marker and every stored document the provenance of the request that created it. The simulator interleaves the clients' handlers between any two database calls of one handler. Verdicts: no response contains another client's marker; no request or background task modifies or deletes a document another client created (checked at the call); own view equals the client's acknowledged data (disjoint-name configuration); stored credentials are salted argon2 strings, never plaintext, never equal for two accounts; a login is acknowledged iff the credential found was produced from the submitted password; requests without a valid session get no problem data; every client re-executed alone under the projection of the same schedule sees the identical history (O5, disjoint configuration). Two configurations (disjoint / contended account names) run separately. Exploration-level evidence; one open known finding (rename window).",
+        text="2-3 clients with cookie jars run generated scripts over all ten endpoints; every submitted code carries its client's marker and every stored document the provenance of the request that created it. The simulator interleaves the clients' handlers between any two database calls of one handler, fails database calls, jumps the clock and restarts the server process (fresh session key, only the store survives). Verdicts: no response contains another client's marker; no request or background task modifies or deletes a document another client created (checked at the call); own view equals the client's acknowledged data (disjoint-name configuration); stored credentials are salted argon2 strings, never plaintext, never equal for two accounts; a login is acknowledged iff the credential found was produced from the submitted password; requests without a valid session get no problem data; every client re-executed alone under the projection of the same schedule sees the identical history (O5, disjoint configuration). Two configurations (disjoint / contended account names) run separately. Exploration-level evidence; one open known finding (rename window).",
         design_ref="DESIGN.md 5.6",
         note="Trusted: MongoDB stub incl. provenance bookkeeping, names stub, harness model.",
     ),
